@@ -142,6 +142,7 @@ func VerifH_http_recv_body() {
 		method:      &method{desc: &fakeMethod{full: "vf.S.Up", in: in, out: in, cs: true}, name: "/vf.S/Up", hasBody: true},
 		r:           r,
 		contentType: "image/x",
+		accept:      "application/json", // what the reply is negotiated to must not leak into the request message
 		hasBody:     true,
 	}
 	var got []byte
